@@ -8,6 +8,7 @@ package main
 
 import (
 	"fmt"
+	"go/types"
 	"strings"
 
 	"golang.org/x/tools/go/ssa"
@@ -134,6 +135,7 @@ func runC05(w *World, c *Check) {
 	c.Rule("C05.msgtype", "RC4 message type: usages 3→8, 9→8, 23→13, all others unchanged, encoded as a fixed-width 4-byte little-endian integer (RFC 4757 §3)", 5)
 	c.Rule("C05.confounder", "each EncryptMessage fills a GetConfounderByteSize() buffer from crypto/rand, checks the error, and encrypts confounder‖message", 12)
 	c.Rule("C05.sibling", "per family, encrypt and decrypt derive the cipher key and integrity hash with the same calls over the same operands and agree on the ciphertext‖MAC layout", 14)
+	c.Rule("C05.minlen", "a length test that rejects a message in a decryptor does not reject the shortest message the encryptor produces (confounder plus checksum: the encryption of an empty plaintext), for any etype of the family", 4)
 	c.Rule("C05.stamp", "GetEncryptedData stamps the key's etype and the caller's kvno and encrypts under the key's etype", 2)
 
 	ruleEtypeTable(w, c, "C05.table", nil)
@@ -232,6 +234,7 @@ func runC05(w *World, c *Check) {
 		}
 	}
 	ruleDecryptShape(w, c, "C05.sibling")
+	ruleMinLen(w, c, "C05.minlen")
 	// the integrity verifiers: MAC position and operand
 	ruleIntegrityOperands(w, c, "C05.sibling")
 	// RFC 4757
@@ -477,4 +480,165 @@ func ruleDecryptShape(w *World, c *Check, rule string) {
 				Want: `crypto/etype\.EType\.VerifyIntegrity\(e, key, ciphertext, crypto/etype\.EType\.DecryptData\(.*\)#0, usage\)`, AllMustMatch: true},
 		})
 	}
+}
+
+// ruleMinLen: every branch of a DecryptMessage/VerifyIntegrity that only rejects (all paths end in
+// an error / false return) and whose condition is linear in the length of the message must let the
+// shortest genuine message through: len = GetConfounderByteSize() + GetHMACBitLength()/8, evaluated
+// separately for every etype (the condition is instantiated with the etype's constants).
+func ruleMinLen(w *World, c *Check, rule string) {
+	impls, _ := etypeImpls(w)
+	for _, spec := range []struct{ fk, msg string }{
+		{"crypto/rfc3961.DES3DecryptMessage", "ciphertext"}, {"crypto/rfc3962.DecryptMessage", "ciphertext"},
+		{"crypto/rfc8009.DecryptMessage", "ciphertext"}, {"crypto/rfc4757.DecryptMessage", "data"},
+		{"crypto/rfc3961.VerifyIntegrity", "ct"}, {"crypto/rfc8009.VerifyIntegrity", "ct"}, {"crypto/rfc4757.VerifyIntegrity", "data"},
+	} {
+		fn := w.Func(spec.fk)
+		if fn == nil {
+			c.Missing(rule, spec.fk)
+			continue
+		}
+		var msg, ep *ssa.Parameter
+		for _, p := range fn.Params {
+			if p.Name() == spec.msg {
+				msg = p
+			}
+			if strings.HasSuffix(p.Type().String(), "crypto/etype.EType") {
+				ep = p
+			}
+		}
+		if msg == nil || ep == nil {
+			// parameter names are not part of the property: fall back to the last []byte / the EType parameter
+			for _, p := range fn.Params {
+				if _, ok := p.Type().Underlying().(*types.Slice); ok && msg == nil {
+					msg = p
+				}
+			}
+		}
+		if msg == nil || ep == nil {
+			c.Fail(rule, spec.fk, "params", w.Pos(fn.Pos()), "the decryptor has a message and an etype parameter", "not found")
+			continue
+		}
+		bc := newBoundsCtx(w, fn)
+		fa := NewFuncAn(w, fn)
+		lenAtom := atom{kind: 'l', v: bc.canon(msg)}
+		n := 0
+		for _, b := range fn.Blocks {
+			iff, ok := lastInstr(b).(*ssa.If)
+			if !ok {
+				continue
+			}
+			for k := 0; k < 2; k++ {
+				if !rejectsOnlyOrFalse(fa, b.Succs[k], b.Succs[1-k]) {
+					continue
+				}
+				facts := bc.condFacts(iff.Cond, k == 0)
+				if len(facts) == 0 {
+					continue
+				}
+				mentions := false
+				for _, f := range facts {
+					if _, ok := f.t[lenAtom]; ok {
+						mentions = true
+					}
+				}
+				if !mentions {
+					continue
+				}
+				n++
+				where := w.Pos(InstrPos(iff))
+				construct := "reject@" + fa.CondOf(iff).String()
+				bad, undec := "", ""
+				for _, tn := range sortedNames(impls) {
+					t := impls[tn]
+					cs, _, ok1 := etypeParam(w, t, "GetConfounderByteSize")
+					hs, _, ok2 := etypeParam(w, t, "GetHMACBitLength")
+					var conf, hm int64
+					if !ok1 || !ok2 {
+						undec = "etype constants of " + tn + " do not fold"
+						continue
+					}
+					fmt.Sscan(cs, &conf)
+					fmt.Sscan(hs, &hm)
+					minLen := conf + hm/8
+					rejects := true
+					for _, f := range facts {
+						fi, ok := bc.instantiate(f, bc.canon(ep), t)
+						if !ok {
+							undec = "condition does not instantiate for " + tn
+							rejects = false
+							break
+						}
+						// substitute the length
+						v := fi.k
+						rest := 0
+						for a, cf := range fi.t {
+							if a == lenAtom {
+								v += cf * minLen
+							} else {
+								rest++
+							}
+						}
+						if rest > 0 {
+							undec = "condition depends on more than the length and the etype"
+							rejects = false
+							break
+						}
+						if v > 0 {
+							rejects = false
+						}
+					}
+					if rejects {
+						bad += fmt.Sprintf(" %s(len %d)", tn, minLen)
+					}
+				}
+				switch {
+				case bad != "":
+					c.Fail(rule, spec.fk, construct, where, "the rejection lets the encryption of an empty plaintext (confounder plus checksum) through", "rejects the shortest genuine message of:"+bad)
+				case undec != "":
+					c.Note(rule, spec.fk, construct, where, "rejection not evaluated: "+undec)
+				default:
+					c.Ok(rule, spec.fk, construct, where, "the rejection lets the shortest genuine message of every etype through")
+				}
+			}
+		}
+		_ = n
+	}
+}
+
+// rejectsOnlyOrFalse: like rejectsOnly, and also accepts functions whose result is a bool: every
+// path returns the constant false.
+func rejectsOnlyOrFalse(fa *FuncAn, from, avoid *ssa.BasicBlock) bool {
+	if rejectsOnly(fa, from, avoid) {
+		return true
+	}
+	seen := map[*ssa.BasicBlock]bool{from: true}
+	stack := []*ssa.BasicBlock{from}
+	rets := 0
+	for len(stack) > 0 {
+		b := stack[len(stack)-1]
+		stack = stack[:len(stack)-1]
+		if b == avoid {
+			return false
+		}
+		if ret, ok := lastInstr(b).(*ssa.Return); ok {
+			rs := RetResults(ret)
+			if len(rs) != 1 {
+				return false
+			}
+			cst, ok := rs[0].(*ssa.Const)
+			if !ok || cst.Value == nil || cst.Value.String() != "false" {
+				return false
+			}
+			rets++
+			continue
+		}
+		for _, n := range b.Succs {
+			if !seen[n] {
+				seen[n] = true
+				stack = append(stack, n)
+			}
+		}
+	}
+	return rets > 0
 }
